@@ -13,7 +13,7 @@ import json
 from .. import core, sqlgen, stmt, lingen
 
 PROP = "C17"
-NAMES_NICE = ["t", "s.u", "a b", "名", "db.t1", "x_1", "T", "sqlx", ".sq", "a.sq.l"]
+NAMES_NICE = ["orders", "t", "db.sales", "seq", "s.u", "a b", "tbl.", "名", "db.t1", "x_1", "T", "sqlx", ".sq", "a.sq.l"]    # several end in s / q / l / '.'
 NAMES_ODD = ["a.sqlx", "x.sql", ".sql", "p.sql.q"]
 
 
